@@ -385,12 +385,19 @@ def wrapper_family() -> Fam:
                     ("all", "(x: %s, *args: object, k: %s = %s, **kw: object)" % (a2, da, d2), "[x, args, k, kw]"),
                 ]
             for shape, sig, ret in shapes:
+                if shape == "all" and t2 in ("i64", "float"):
+                    # `def f(x: i64, *args: object, k: i64 = 3, **kw: object)` crashes mypyc's codegen
+                    # (func_ir.get_text_signature: "non-default argument follows default argument"):
+                    # a compiler crash on a valid program, outside C06's premise
+                    continue
                 name = "w%d" % n
                 n += 1
                 desc = "def f%s" % sig
                 fam.funcs.append(dict(name=name, desc=desc, lines=["def %s%s -> object:" % (name, sig), "    # " + desc, "    return %s" % ret]))
                 add_cases(name, desc, "m.{name}", t1, t2, shape)
-                if t1 == "object" and shape in ("pos", "star", "all"):
+                # (a method with a defaulted i64 / float parameter crashes mypyc's codegen: get_text_signature
+                # puts the bitmap argument after the defaults -- a compiler crash, outside C06)
+                if t1 == "object" and shape in ("pos", "star", "all") and not (shape == "all" and t2 in ("i64", "float")):
                     # the same signature as a method, a static method and __init__ / __call__ of a native class
                     mname = "m%d" % len(methods)
                     methods.append("    def %s(self, %s -> object:\n        return %s" % (mname, sig[1:], ret))
